@@ -1,4 +1,5 @@
 import IwModel.Lemmas.ExfDiverge
+import IwModel.Lemmas.ExfLsn
 /-! # C12 — reads through the extensible file return the bytes last written
 
 Property theorems only; definitions of the model are in `IwModel/Model/Exf.lean` (mirrors
@@ -457,5 +458,122 @@ example :
   · simp only [diverges]; decide
   · simp only [diverges]; decide
   · simp only [diverges]; decide
+
+/-! ### The data listener (`IWDLSNR`): what the file layer reports is enough to rebuild the file
+
+`Model/ExfLsn.lean` repeats the calls of the model with the listener calls of `iwexfile.c` / `iwfile.c` woven in (`execL`,
+`runL`: `onresize` in `_exfile_truncate_lw`, one `onwrite` per piece of `_exfile_write`, `onwrite` of the source bytes in the
+mapped branch of `_exfile_copy`, `oncopy` after a successful `iwp_copy_bytes`). `replay` applies events to a copy of the
+file the way the WAL's roll-forward does (payload `memmove`, `memmove` inside the file, truncate with zero fill). -/
+
+/-- **the model with a listener is the model**: forgetting the listener calls, every history gives the final state and the
+    results of `run` (so every theorem above speaks about the file the listener watches) -/
+theorem listener_model_agrees (m : Lsn) (st : St) (ops : List LOp) :
+    ((runL m st ops).1, (runL m st ops).2.1) = run st (ops.map LOp.base) :=
+  runL_base m ops st
+
+/-- **Listener completeness (shared windows).** Take any state with shared windows and any history of write / read / copy /
+    truncate / ensure_size / add or remove window / remap_all / store through a mapping *that its caller reports* (`mmapWriteR`),
+    failed calls included, with either kind of listener (passive, or resizing itself as the WAL does), where the source of every
+    copy lies inside the file on disk. Replaying everything the listener was told, in order, on a copy of the old file gives
+    exactly the new file — every byte and the length — and the size it was told last is the logical size. No hypothesis on
+    window layouts, sizes or the destination of copies (a copy that ends beyond the size extends the listener's copy exactly as it
+    extends the disk, finding C12-COPYEXT). Not covered, necessarily: a store through `acquire_mmap` that nobody reports
+    (`unreported_store_invisible`). -/
+theorem listener_complete (m : Lsn) (st : St) (ops : List LOp) (hs : AllShared st.slots) (hc : 0 < st.cbuf)
+    (hcov : RunCovered m st ops) :
+    replay ⟨st.file, st.fsize⟩ (runL m st ops).2.2 = ⟨(runL m st ops).1.file, (runL m st ops).1.fsize⟩ :=
+  runL_replay m ops st hs hc hcov
+
+/-- one call (the step of `listener_complete`) -/
+theorem listener_complete_step (m : Lsn) (st : St) (op : LOp) (hs : AllShared st.slots) (hc : 0 < st.cbuf)
+    (hcov : op.Covered st) :
+    replay ⟨st.file, st.fsize⟩ (execL m st op).2.2.2 = ⟨(execL m st op).1.file, (execL m st op).1.fsize⟩ :=
+  execL_replay m st op hs hc hcov
+
+/-- **Every event fits the file the listener knows.** From a state whose disk size is the logical size (a freshly opened file)
+    and along every history whose copies stay inside the logical size, each event can be applied to a mapping of exactly the size
+    the listener was told (which is what the WAL does): the range of every `onwrite` / `oncopy` lies inside that size at the
+    moment it is reported (the growth is reported first), every `onresize` names the size the listener knows as its old size, and
+    the checked replay ends in the new file. -/
+theorem listener_events_fit (m : Lsn) (st : St) (ops : List LOp) (hs : AllShared st.slots) (hp : 0 < st.psize)
+    (hc : 0 < st.cbuf) (hi : Inv st) (hin : RunInside m st ops) :
+    replayChecked ⟨st.file, st.fsize⟩ (runL m st ops).2.2 = some ⟨(runL m st ops).1.file, (runL m st ops).1.fsize⟩ :=
+  runL_checked m ops st hs hp hc hi hin
+
+/-- **What the file layer does not report.** A store through the pointer of `acquire_mmap` produces no event: the listener's
+    copy stays what it was while the file takes the bytes. The caller has to report it (`mmapWriteR`; iwkv and iwfsmfile call
+    `onwrite` / `onset` themselves after every store into the mapping). -/
+theorem unreported_store_invisible (m : Lsn) (st : St) (so rel : Nat) (d : Bytes) (hs : AllShared st.slots) :
+    (execL m st (.op (.mmapWrite so rel d))).2.2.2 = [] ∧
+    ((execL m st (.op (.mmapWrite so rel d))).2.1 = .ok →
+      (execL m st (.op (.mmapWrite so rel d))).1.file = writeAt st.file (so + rel) d) :=
+  mmapWrite_unreported m st so rel d hs
+
+/-- **With private windows the listener holds the flat array** (the layout of iwkv with a WAL: one private window, the log is
+    the truth). If the listener's copy `V` shows what readers see before a reported call (source of a copy inside the file), then
+    after replaying the call's events it holds, at every byte below the new size, the plain meaning of the call (`expect`: the
+    bytes written, the bytes moved, everything else as before) — also when the private window itself loses them
+    (`private_diverges_iff`). -/
+theorem listener_holds_flat_array (m : Lsn) (st : St) (op : LOp) (V : Bytes) (sz i : Nat) (h : PInv st) (hrep : op.Reported)
+    (hsrc : ∀ off siz noff, op.base = .copy off siz noff → off + siz ≤ st.fsize)
+    (hV : ∀ j, j < st.fsize → V.getD j 0 = view st.psize st.file st.slots j) (hVlen : st.fsize ≤ V.length)
+    (hi' : i < (execL m st op).1.fsize) :
+    (replay ⟨V, sz⟩ (execL m st op).2.2.2).bytes.getD i 0 = expect st op.base (fun j => V.getD j 0) i :=
+  execL_expect m st op V sz i h hrep hsrc hV hVlen hi'
+
+/-- hence: after the call the listener's copy and a read agree at byte `i` (below the old and the new size) **iff** the call
+    does not diverge there — the listener is right exactly where finding C12-PRIV makes the private window wrong -/
+theorem listener_vs_read (m : Lsn) (st : St) (op : LOp) (V : Bytes) (sz i : Nat) (h : PInv st) (hc : 0 < st.cbuf)
+    (hrep : op.Reported) (hsrc : ∀ off siz noff, op.base = .copy off siz noff → off + siz ≤ st.fsize)
+    (hV : ∀ j, j < st.fsize → V.getD j 0 = view st.psize st.file st.slots j) (hVlen : st.fsize ≤ V.length)
+    (hi : i < st.fsize) (hi' : i < (execL m st op).1.fsize) :
+    (replay ⟨V, sz⟩ (execL m st op).2.2.2).bytes.getD i 0 =
+        view (execL m st op).1.psize (execL m st op).1.file (execL m st op).1.slots i ↔ ¬ diverges st op.base i := by
+  rw [execL_expect m st op V sz i h hrep hsrc hV hVlen hi']
+  have hst := execL_state m st op
+  rw [hst] at hi' ⊢
+  have hd := view_diverges_iff st op.base i h hc hsrc hi'
+  have he : expect st op.base (fun j => V.getD j 0) i = expect st op.base (view st.psize st.file st.slots) i := by
+    cases hop : op.base with
+    | write off d => simp only [expect]; rw [hV i hi]
+    | copy off siz noff =>
+      simp only [expect]
+      split
+      · rename_i hcnd; exact hV _ (by have := hsrc off siz noff hop; omega)
+      · exact hV i hi
+    | mmapWrite so rel d => simp only [expect]; rw [hV i hi]
+    | read off n => exact hV i hi
+    | truncate size => exact hV i hi
+    | ensure size => exact hV i hi
+    | addMmap off maxlen priv => exact hV i hi
+    | removeMmap off => exact hV i hi
+    | remapAll => exact hV i hi
+  rw [he]
+  constructor
+  · intro heq hdv; exact (hd.mpr hdv) heq.symm
+  · intro hnd
+    by_cases heq : view (exec st op.base).1.psize (exec st op.base).1.file (exec st op.base).1.slots i =
+        expect st op.base (view st.psize st.file st.slots) i
+    · exact heq.symm
+    · exact absurd (hd.mp heq) hnd
+
+/-- non-vacuity and a picture (page size 4): a write that grows the file and straddles a window is reported as the resize and
+    one `onwrite` per piece, at file offsets; a listener that resizes itself sees its own resize come back -/
+example :
+    (execL .handling { witness3 with slots := [{ off := 4, maxlen := 4, len := 0, priv := false }] }
+      (.op (.write 2 [7, 8, 9, 10]))).2.2.2 =
+      [.resize 4 8 false, .resize 4 8 true, .write 2 [7, 8], .write 4 [9, 10]] := by decide
+
+/-- non-vacuity of `listener_complete` / `listener_events_fit`: a history with growth, a straddling write, a copy through the
+    file, a reported store and a shrink satisfies the hypotheses; the replay is the final file -/
+example :
+    let st : St := { witness3 with slots := [{ off := 4, maxlen := 4, len := 0, priv := false }] }
+    let ops : List LOp := [.op (.write 2 [7, 8, 9, 10]), .op (.copy 0 3 5), .mmapWriteR 4 1 [5], .op (.truncate 4)]
+    RunCovered .passive st ops ∧ RunInside .passive st ops ∧ Inv st ∧ AllShared st.slots ∧
+    (runL .passive st ops).1.file = [1, 2, 7, 8] ∧
+    replay ⟨st.file, st.fsize⟩ (runL .passive st ops).2.2 = ⟨[1, 2, 7, 8], 4⟩ := by
+  refine ⟨by simp only [RunCovered, LOp.Covered]; decide, by simp only [RunInside, LOp.Inside]; decide, ⟨rfl, by decide⟩,
+    by simp [AllShared], by decide, by decide⟩
 
 end IwModel.C12
